@@ -199,9 +199,9 @@ End C17.
     client serialiser.  What remains trusted of the text layer is the conversion of number tokens:
     [numprint] (the client's formatting of a float64) and [numval] (strconv.ParseFloat), tied by the
     four hypotheses below.  [tclean fl numclean j]: the numbers of [j] are [numclean], and (for
-    encoding/json, which rewrites invalid UTF-8) its strings and member names are ASCII.
-    PARTIAL: strings beyond ASCII on the HTTP transports are covered by the tree-level theorems above
-    (hypothesis [std_faithful]) but not yet by the byte-level ones. *)
+    encoding/json, which rewrites bytes that are not UTF-8) its strings and member names are valid
+    UTF-8 ([utf8_ok]: exactly the sequences utf8.DecodeRune accepts).  Since the third repair every
+    transport reads JSON with encoding/json. *)
 Section C17Bytes.
   Variable numval : bytes -> option N.
   Variable numprint : N -> bytes.
